@@ -67,14 +67,14 @@ impl AnyCase {
         }
     }
 
-    /// Simpler variants of this case, most aggressive first.
-    pub fn shrink_candidates(&self) -> Vec<AnyCase> {
+    /// Simpler variants of this case, most aggressive first; each is built only when the iterator reaches it.
+    pub fn shrink_candidates(&self) -> Box<dyn Iterator<Item = AnyCase> + '_> {
         match self {
-            AnyCase::Prog(c) => shrink_prog(c).into_iter().map(AnyCase::Prog).collect(),
-            AnyCase::Frag(c) => shrink_frag(c).into_iter().map(AnyCase::Frag).collect(),
-            AnyCase::Conc(c) => c.shrink().into_iter().map(AnyCase::Conc).collect(),
-            AnyCase::Cli(c) => c.shrink().into_iter().map(AnyCase::Cli).collect(),
-            AnyCase::Stateless(_) => Vec::new(),
+            AnyCase::Prog(c) => Box::new(shrink_prog_steps(c).into_iter().map(move |s| AnyCase::Prog(apply_prog_shrink(c, &s)))),
+            AnyCase::Frag(c) => Box::new(shrink_frag_steps(c).into_iter().map(move |s| AnyCase::Frag(apply_frag_shrink(c, &s)))),
+            AnyCase::Conc(c) => Box::new(c.shrink().into_iter().map(AnyCase::Conc)),
+            AnyCase::Cli(c) => Box::new(c.shrink().into_iter().map(AnyCase::Cli)),
+            AnyCase::Stateless(_) => Box::new(std::iter::empty()),
         }
     }
 }
@@ -97,93 +97,128 @@ fn chunk_removals(n: usize) -> Vec<(usize, usize)> {
     out
 }
 
-pub fn shrink_prog(c: &ProgCase) -> Vec<ProgCase> {
+/// One simplification of a progressive case (descriptors are cheap; the case is only built when tried —
+/// a 70 000-operation history has 140 000 candidates).
+#[derive(Clone, Debug)]
+pub enum ProgShrink {
+    Remove(usize, usize),
+    ClearPattern,
+    RemoveFault(usize),
+    NoDie,
+    NoHeal,
+    NoMeta,
+    ShortTitle,
+    NoAudio,
+    Halve(usize),
+}
+
+pub fn shrink_prog_steps(c: &ProgCase) -> Vec<ProgShrink> {
     let mut out = Vec::new();
     let n = c.ops.len();
     for (s, l) in chunk_removals(n) {
         if l == n {
             continue;
         }
-        let mut d = c.clone();
-        d.ops.drain(s..s + l);
-        out.push(d);
+        out.push(ProgShrink::Remove(s, l));
     }
     // faults
     if !c.faults.pattern.is_empty() {
-        let mut d = c.clone();
-        d.faults.pattern.clear();
-        out.push(d);
+        out.push(ProgShrink::ClearPattern);
     }
     for i in 0..c.faults.at_call.len() {
-        let mut d = c.clone();
-        d.faults.at_call.remove(i);
-        out.push(d);
+        out.push(ProgShrink::RemoveFault(i));
     }
     if c.faults.die_at_byte.is_some() {
-        let mut d = c.clone();
-        d.faults.die_at_byte = None;
-        out.push(d);
+        out.push(ProgShrink::NoDie);
     }
     if c.faults.heal_at_op.is_some() {
-        let mut d = c.clone();
-        d.faults.heal_at_op = None;
-        out.push(d);
+        out.push(ProgShrink::NoHeal);
     }
     // configuration
     if c.cfg.meta.is_some() {
-        let mut d = c.clone();
-        d.cfg.meta = None;
-        out.push(d);
+        out.push(ProgShrink::NoMeta);
     }
     if let Some(m) = &c.cfg.meta {
         if m.title.as_ref().map(|t| t.len() > 4).unwrap_or(false) {
-            let mut d = c.clone();
-            d.cfg.meta.as_mut().unwrap().title = Some("t".into());
-            out.push(d);
+            out.push(ProgShrink::ShortTitle);
         }
     }
     if c.cfg.audio.is_some() && !c.ops.iter().any(|o| matches!(o, Op::Audio { .. } | Op::EncAudio { .. })) {
-        let mut d = c.clone();
-        d.cfg.audio = None;
-        out.push(d);
+        out.push(ProgShrink::NoAudio);
     }
     // payloads: shorten big non-constructive payloads
     for (i, op) in c.ops.iter().enumerate() {
         if let Some(h) = op.data() {
             if h.0.len() > 64 && !op.cc() {
-                let mut d = c.clone();
-                let dd = d.ops[i].data_mut().unwrap();
-                dd.0.truncate(h.0.len() / 2);
-                out.push(d);
+                out.push(ProgShrink::Halve(i));
             }
         }
     }
     out
 }
 
-pub fn shrink_frag(c: &FragCase) -> Vec<FragCase> {
+pub fn apply_prog_shrink(c: &ProgCase, step: &ProgShrink) -> ProgCase {
+    let mut d = c.clone();
+    match step {
+        ProgShrink::Remove(s, l) => {
+            d.ops.drain(*s..*s + *l);
+        }
+        ProgShrink::ClearPattern => d.faults.pattern.clear(),
+        ProgShrink::RemoveFault(i) => {
+            d.faults.at_call.remove(*i);
+        }
+        ProgShrink::NoDie => d.faults.die_at_byte = None,
+        ProgShrink::NoHeal => d.faults.heal_at_op = None,
+        ProgShrink::NoMeta => d.cfg.meta = None,
+        ProgShrink::ShortTitle => d.cfg.meta.as_mut().unwrap().title = Some("t".into()),
+        ProgShrink::NoAudio => d.cfg.audio = None,
+        ProgShrink::Halve(i) => {
+            let dd = d.ops[*i].data_mut().unwrap();
+            let n = dd.0.len() / 2;
+            dd.0.truncate(n);
+        }
+    }
+    d
+}
+
+#[derive(Clone, Debug)]
+pub enum FragShrink {
+    Remove(usize, usize),
+    Trunc(usize),
+}
+
+pub fn shrink_frag_steps(c: &FragCase) -> Vec<FragShrink> {
     let mut out = Vec::new();
     let n = c.ops.len();
     for (s, l) in chunk_removals(n) {
         if l == n {
             continue;
         }
-        let mut d = c.clone();
-        d.ops.drain(s..s + l);
-        out.push(d);
+        out.push(FragShrink::Remove(s, l));
     }
     for (i, op) in c.ops.iter().enumerate() {
         if let FragOp::Write { data, .. } = op {
             if data.0.len() > 8 {
-                let mut d = c.clone();
-                if let FragOp::Write { data, .. } = &mut d.ops[i] {
-                    data.0.truncate(8);
-                }
-                out.push(d);
+                out.push(FragShrink::Trunc(i));
             }
         }
     }
     out
+}
+
+pub fn apply_frag_shrink(c: &FragCase, step: &FragShrink) -> FragCase {
+    let mut d = c.clone();
+    match step {
+        FragShrink::Remove(s, l) => {
+            d.ops.drain(*s..*s + *l);
+        }
+        FragShrink::Trunc(i) => {
+            if let FragOp::Write { data, .. } = &mut d.ops[*i] {
+                data.0.truncate(8);
+            }
+        }
+    }
+    d
 }
 
 #[derive(Default)]
@@ -535,11 +570,20 @@ fn c03_eval(_sc: &str, case: &AnyCase, st: &mut RunStats, _t: Tier) -> Vec<Viola
 // ================================================================ C04
 
 fn c04_scen(t: Tier) -> Vec<(&'static str, u64)> {
-    vec![("contract", t.pick(1_000_000, 20_000_000))]
+    vec![("contract", t.pick(1_000_000, 20_000_000)), ("contract-failing-sink", t.pick(200_000, 4_000_000))]
 }
-fn c04_gen(_sc: &str, rng: &mut Rng, _t: Tier, _i: u64) -> AnyCase {
+fn c04_gen(sc: &str, rng: &mut Rng, _t: Tier, _i: u64) -> AnyCase {
     let mut k = Knobs::contract();
     k.long_pct = 1;
+    if sc == "contract-failing-sink" {
+        // muxer states that only a failing sink produces: a finish that was called and failed, then more calls
+        // ("cannot write frames after calling finish()" is the documented wording of AlreadyFinished)
+        k.fault_mode = 2;
+        k.fault_pct = 100;
+        k.after_finish_pct = 100;
+        k.no_finish_pct = 0;
+        k.invalid_pct = 8;
+    }
     AnyCase::Prog(gen::gen_prog(rng, &k).0)
 }
 fn c04_eval(_sc: &str, case: &AnyCase, st: &mut RunStats, _t: Tier) -> Vec<Violation> {
@@ -1104,7 +1148,13 @@ const STUB_FAULT: &[&str] = &["sink (SimSink: one enumerated fault point per exe
 // ================================================================ C16
 
 fn c16_scen(t: Tier) -> Vec<(&'static str, u64)> {
-    let mut v = vec![("boundary-progressive", t.pick(200_000, 4_000_000)), ("boundary-fragmented", t.pick(200_000, 4_000_000))];
+    let mut v = vec![
+        ("boundary-progressive", t.pick(200_000, 4_000_000)),
+        ("boundary-fragmented", t.pick(200_000, 4_000_000)),
+        // count and length fields: thousands to 70 000 samples per track / per fragment / fragments
+        ("counts-progressive", t.pick(48, 800)),
+        ("counts-fragmented", t.pick(2_000, 40_000)),
+    ];
     if t == Tier::Thorough {
         // 16 recordings of about 4 GiB each, executed one at a time by worker 0
         v.push(("slow-four-gib", 32));
@@ -1117,12 +1167,22 @@ fn c16_gen(sc: &str, rng: &mut Rng, _t: Tier, i: u64) -> AnyCase {
     }
     if sc == "boundary-fragmented" {
         AnyCase::Frag(gen::gen_frag(rng, &FragKnobs { reject_pct: 3, boundary: true, big: false, long_pct: 1 }))
+    } else if sc == "counts-fragmented" {
+        AnyCase::Frag(gen::gen_frag(rng, &FragKnobs { reject_pct: 1, boundary: false, big: false, long_pct: 100 }))
+    } else if sc == "counts-progressive" {
+        let mut k = Knobs::functional();
+        k.long_pct = 100;
+        k.huge_of_long_pct = 100;
+        k.audio_pct = 50;
+        k.meta_pct = 10;
+        k.long_title_pct = 0;
+        AnyCase::Prog(gen::gen_prog(rng, &k).0)
     } else {
         AnyCase::Prog(gen::gen_boundary(rng))
     }
 }
 fn c16_eval(sc: &str, case: &AnyCase, st: &mut RunStats, _t: Tier) -> Vec<Violation> {
-    if sc == "boundary-fragmented" {
+    if sc == "boundary-fragmented" || sc == "counts-fragmented" {
         return crate::frag::c16_eval_frag(as_frag(case), st);
     }
     if sc == "slow-four-gib" {
